@@ -30,6 +30,8 @@ require (
 	github.com/gogs/chardet v0.0.0-20211120154057-b7413eaefb8f // indirect
 	github.com/hashicorp/golang-lru v1.0.2 // indirect
 	github.com/itchio/arkive v0.0.0-20200618123031-1a30392a8cfe // indirect
+	github.com/itchio/dskompress v0.0.0-20190702113811-5e6f499be697 // indirect
+	github.com/itchio/go-brotli v0.0.0-20190702114328-3f28d645a45c // indirect
 	github.com/itchio/httpkit v0.0.0-20251231162950-9fb57e6ac916 // indirect
 	github.com/itchio/kompress v0.0.0-20200301155538-5c2eecce9e51 // indirect
 	github.com/itchio/ox v0.0.0-20200826161350-12c6ca18d236 // indirect
